@@ -17,6 +17,9 @@ checks = {
  'C17': ('model_checking', 'same explorer as C16 with a step-wise reference trigger model',
          'At every COUNTING firing point, every forwarded watermark and at end of stream the consolidated output is compared with the reference trigger model.',
          'COUNTING oracle evaluated on zero-event-time streams (processing order = arrival order); no late records.', '3/C17'),
+ 'C18': ('model_checking', 'explicit-state exploration of watermarked changelogs on every real node/TVF/pipeline + exhaustive schedule enumeration for joins (hook H1)',
+         'Every valid watermarked changelog up to the length bound through every single-input node, the event-time buffer (exact release order oracle), tumble, max_diff_watermark, a max_diff_watermark->tumble->group-by pipeline, and every interleaving of watermarked per-side scripts through the four joins and join->group-by: watermarks never regress and no record is emitted with a non-zero event time at or below a forwarded watermark.',
+         'No late input records (a zero-event-time record after a watermark on the same input counts as late: weaker reading); bounded length.', '3/C18'),
  'C22': ('model_checking', 'explicit-state exploration of changelogs with watermarks on the real output wrapper',
          'Every valid changelog with watermarks up to length 5 (7 thorough): at each forwarded watermark emitted == input up to it, nothing emitted that was not in the input, everything emitted by end of stream.',
          'No late records; retraction event time not before its insert.', '3/C22'),
